@@ -224,16 +224,61 @@ PROPS.update({
     'C14': {
         'kani': [K('langid_dir', h) for h in ['layout_tables_eq_cldr', 'dir_is_model', 'dir_cldr_rows']] +
                 [K('langid_dir_likely', h) for h in ['layout_tables_eq_cldr', 'dir_is_model', 'dir_cldr_rows_direct', 'dir_cldr_rows_likely_model', 'dir_cldr_rows_split']] +
-                [K('langid_dir_likely', 'dir_cldr_rows_likely_real', tier='thorough', timeout=3600, cost='> 10 min')] + CASCADE_QUICK,
+                [K('langid_dir_likely', 'dir_cldr_rows_likely_real', timeout=1500, cost='200 s')] + CASCADE_QUICK,
         'trusted': LIKELY_TRUST + ['vf/gen.py derives the expected script / language sets, the 710 (locale, characterOrder) rows and, for the 72 script-less rows of '
                                    'right-to-left languages, the likely script from the CLDR JSON files',
                                    'with likely subtags enabled, character_direction is verified against maximize\'s CONTRACT (kani::stub(maximize, M)); that the real maximize '
-                                   'returns the likely script gen.py computed for the 72 rows is the thorough-tier obligation dir_cldr_rows_likely_real (quick tier: deferred; it '
-                                   'also follows from C06 + C18)'],
+                                   'returns the likely script gen.py computed for the 72 rows is the obligation dir_cldr_rows_likely_real (binary_search_by_key by its assumed contract)'],
         'explanation': 'for ALL raw (language, script, region) and variant lists, in both feature configurations, character_direction() (real code) equals the model of C14 over '
                        'the CLDR-derived sets: a listed script decides on its own, otherwise a right-to-left language is RTL (refined to LTR when its likely script is a listed '
                        'LTR script, likely subtags enabled), everything else LTR; variants never matter (the value is built with an arbitrary variant list); every one of the '
                        '710 CLDR layout locales gets CLDR\'s characterOrder with likely subtags, and without them differs only for script-less identifiers of multi-direction languages',
+    },
+})
+
+
+PROPS.update({
+    'C19': {
+        'kani': [K('langid_serde', h) for h in ['serialize_is_to_string', 'deserialize_str_is_parse', 'deserialize_non_string_is_err']] +
+                [K('langid_leaf', h) for h in LEAF_LID],
+        'verus': [V('bridge', BRIDGE_LID)] + LID_PARSER + LID_DISPLAY,
+        'standin': ['lid'],
+        'trusted': ['the serde glue is verified against its callees\' CONTRACTS: Display::fmt of LanguageIdentifier (kani::stub by an oracle writing an arbitrary fixed text <= 8 bytes; '
+                    'its real contract is C04\'s) and parse_language_identifier_from_iter (kani::stub by an arbitrary deterministic function of (first subtag, allow_extension); '
+                    'its real contract is C02\'s); mock Serializer / Deserializer / Error types stand for serde_json (JSON escaping is serde_json\'s)',
+                    'input strings of the deserialisation harness: every ASCII string of length <= 4 (the glue does not inspect the bytes; the parser oracle does not either)'],
+        'explanation': 'serialize calls serialize_str exactly once with exactly the text Display::fmt writes (= to_string(), the canonical string by C04) and no other Serializer '
+                       'method; deserialize of a string returns Ok(v) iff the parser does on that very string with allow_extension = false, with the same v, else Err; every '
+                       'non-string kind (bool, u64, i64, f64, unit, none, char, bytes) is an error and no panic is reachable; with the verified parser / Display contracts this '
+                       'gives the canonical form and the round trip',
+    },
+})
+
+
+# ---- C20: every obligation re-discharged under the other feature sets -----------------------------------------------
+FEATS_L = 'likelysubtags,serde'
+PROPS.update({
+    'C20': {
+        'scan': ['cfg_sites'],
+        'kani': [K('langid_leaf', h) for h in LEAF_LID + ['leaf_language_default_is_und']] +
+                [K('langid_leaf@' + FEATS_L, h) for h in LEAF_LID + ['leaf_language_default_is_und']] +
+                [K('langid_match', h) for h in ['match_language', 'match_fields_no_variants', 'as_ref_is_identity']] +
+                [K('langid_match', 'match_variants_only', bounded='variant lists of length <= 2 per side')] +
+                [K('langid_match@' + FEATS_L, h) for h in ['match_language', 'match_fields_no_variants', 'as_ref_is_identity']] +
+                [K('langid_match@' + FEATS_L, 'match_variants_only', bounded='variant lists of length <= 2 per side')] +
+                LOCALE_LEAF + [K(k['unit'] + '@likelysubtags', k['harness']) for k in LOCALE_LEAF] +
+                [K('langid_dir', 'dir_is_model'), K('langid_dir_likely', 'dir_is_model')],
+        'verus': [V('bridge', BRIDGE_ALL),
+                  V('langid', r'^unic_langid_impl::(?!likelysubtags)'), V('langid', r'^unic_langid_impl::(?!likelysubtags)', features=('likelysubtags',)),
+                  V('locale', r'^unic_locale_impl::'), V('locale', r'^unic_locale_impl::', features=('likelysubtags',))],
+        'trusted': ['Verus does not see the `serde` feature (it only adds the module serde.rs, which contains no code shared with the functions under contract: checked by the '
+                    'cfg-site scan); Kani builds the real crate with --features likelysubtags,serde',
+                    'the facade crates unic-langid / unic-locale contain only re-exports and macro_rules! behind their features (cfg-site scan): no function to put under contract; '
+                    'a dependency changing behaviour under cargo feature unification is not covered'],
+        'explanation': 'the contracts are functional (result = spec function of the input), so two feature configurations that both satisfy them agree on every input: every Verus '
+                       'obligation of both implementation crates (parsers, mutators, Display, conversions, lemmas) is re-discharged with likelysubtags on and off (rustc evaluates any '
+                       'cfg inside a function under contract), and the Kani leaf / matches / direction harnesses are re-run on the real crate built with every optional feature; the '
+                       'one intended difference, the cfg block in character_direction, is exactly the two models of C14; a syntactic scan asserts that no other feature-gated code exists',
     },
 })
 
